@@ -549,57 +549,118 @@ Proof.
       change (sentp (retry m1)) with (@nil pkt). change (largest (retry m1)) with (@None N).
       repeat split; try assumption; try reflexivity; try (symmetry; assumption); try congruence. }
   { (* any other code (also Retry on a server, peer validation): the ledger does not move *)
-    assert (F : exists m', (let '(mm, code, lost, hulls, stop) :=
-                  (if (c =? 7)%Z then if m_client m then (retry (if mp m then burst_complete m (m_now m) else m), 0%Z, [], [], false) else (m, 0%Z, [], [], false)
-                   else if (c =? 8)%Z then (peer_validated m, 0%Z, [], [], false) else (m, 0%Z, [], [], false)) in
-                  mm = m' /\ code = 0%Z /\ lost = [] /\ hulls = [] /\ stop = false)
-                /\ sentp m' = sentp m /\ largest m' = largest m /\ lastpn m' = lastpn m /\ m_now m' = m_now m
-                /\ backoff m' = backoff m /\ ccs (pa m') = ccs (pa m) /\ ccs (pb m') = ccs (pb m)).
-    { destruct (c =? 7)%Z; [cbn [andb] in E7; rewrite E7|destruct (c =? 8)%Z]; eexists; (split; [repeat split; reflexivity|repeat split; reflexivity]). }
-    destruct F as (m' & F0 & F1 & F2 & F3 & F4 & F5 & F6 & F7).
-    destruct (if (c =? 7)%Z then if m_client m then (retry (if mp m then burst_complete m (m_now m) else m), 0%Z, [], [], false) else (m, 0%Z, [], [], false)
-              else if (c =? 8)%Z then (peer_validated m, 0%Z, [], [], false) else (m, 0%Z, [], [], false))
-      as [[[[mm code] lost] hulls] stop].
-    destruct F0 as (-> & -> & -> & -> & ->).
-    eexists. split; [split; [|reflexivity]|].
-    - jopen. rewrite E1, E34, E5, H6, E7, E2. cbn [andb]. rewrite F5, F6, F7, R1, R5, R6, R7, !cc_eqb_refl, N.eqb_refl, Z.eqb_refl.
-      rewrite (bif_ok_winv m W). reflexivity.
-    - unfold rel. cbn [j_un j_lg j_now j_last j_cc0 j_cc1 j_bo]. rewrite F1, F2, F3, F4, F5, F6, F7.
-      repeat split; try assumption; try reflexivity; try (symmetry; assumption); try congruence. }
+    destruct (c =? 7)%Z eqn:E7'.
+    - cbn [andb] in E7. rewrite E7 in *.
+      eexists. split; [split; [|reflexivity]|].
+      + jopen. rewrite ?E1, ?E34, ?E5, ?H6, ?E7', ?E7, ?E2. cbn [andb]. rewrite R1, R5, R6, R7, !cc_eqb_refl, N.eqb_refl, Z.eqb_refl.
+        rewrite (bif_ok_winv m W). reflexivity.
+      + unfold rel. cbn [j_un j_lg j_now j_last j_cc0 j_cc1 j_bo].
+        repeat split; try assumption; try reflexivity; try (symmetry; assumption); try congruence.
+    - destruct (c =? 8)%Z eqn:E8.
+      + eexists. split; [split; [|reflexivity]|].
+        * jopen. rewrite ?E1, ?E34, ?E5, ?H6, ?E7', ?E2. cbn [andb peer_validated pa pb backoff].
+          rewrite R1, R5, R6, R7, !cc_eqb_refl, N.eqb_refl, Z.eqb_refl.
+          rewrite (bif_ok_winv m W). reflexivity.
+        * unfold rel. cbn [j_un j_lg j_now j_last j_cc0 j_cc1 j_bo peer_validated sentp largest lastpn m_now pa pb backoff].
+          repeat split; try assumption; try reflexivity; try (symmetry; assumption); try congruence.
+      + eexists. split; [split; [|reflexivity]|].
+        * jopen. rewrite ?E1, ?E34, ?E5, ?H6, ?E7', ?E2. cbn [andb]. rewrite R1, R5, R6, R7, !cc_eqb_refl, N.eqb_refl, Z.eqb_refl.
+          rewrite (bif_ok_winv m W). reflexivity.
+        * unfold rel. cbn [j_un j_lg j_now j_last j_cc0 j_cc1 j_bo].
+          repeat split; try assumption; try reflexivity; try (symmetry; assumption); try congruence. }
 Qed.
 
-Fixpoint no_discard_ops (l : list Z) : bool :=
-  match l with
-  | c :: _ :: _ :: _ :: _ :: _ :: _ :: _ :: t => negb (c =? 6)%Z && no_discard_ops t
-  | _ => true
-  end.
+Lemma mstep6 : forall m a b d e f g,
+  mstep m 6 a b d e f g =
+  if m_space m =? 2 then (m, 0%Z, [], [], false)
+  else (discard (if mp m then burst_complete m (m_now m) else m), 0%Z, [], [], true).
+Proof. reflexivity. Qed.
 
-Definition no_discard_case (case : list Z) : bool :=
-  match case with _ :: _ :: _ :: _ :: ops => no_discard_ops ops | _ => true end.
-
-Lemma judge_run_ops : forall l sp m j, winv m -> now_pos m -> rel m j -> no_discard_ops l = true ->
-  judge_ops true sp j l (run_ops m l) = true.
+Lemma filter_path0_nil : forall l, (forall p, In p l -> p_path p = 0) -> filter (fun p => negb (p_path p =? 0)) l = [].
 Proof.
-  induction l as [l Hl | c a b d e f g x t IH] using RttProofs.list_ind8; intros sp m j W Hn R Hd.
+  induction l as [|x l IH]; intros H; [reflexivity|]. cbn [filter]. rewrite (H x) by (left; reflexivity).
+  change (0 =? 0) with true. cbn [negb]. apply IH. intros p Hp. apply H. right. assumption.
+Qed.
+
+(* a space discard (Initial / Handshake) *)
+Lemma jstep_discard : forall m j a b d e f g t, winv m -> rel m j -> (m_space m =? 2) = false ->
+  exists j', jstep_m true false (m_client m) j 6 a b d e f g
+               (mobs (discard (if mp m then burst_complete m (m_now m) else m)) 0 [] [] ++ t) = Some (j', t, true).
+Proof.
+  intros m j a b d e f g t W (R1 & R2 & R3 & R4 & R5 & R6 & R7 & R8) Es.
+  set (m1 := if mp m then burst_complete m (m_now m) else m).
+  assert (W1 : winv m1) by (subst m1; destruct (mp m); [apply winv_burst|]; assumption).
+  assert (F : sentp m1 = sentp m /\ ccs (pa m1) = ccs (pa m) /\ ccs (pb m1) = ccs (pb m) /\ backoff m1 = backoff m
+              /\ m_space m1 = m_space m /\ m_client m1 = m_client m).
+  { subst m1. destruct (mp m); [|repeat split; reflexivity].
+    destruct (burst_facts m (m_now m)) as (B1 & B2 & B3 & B4 & B5 & B6 & B7).
+    pose proof (cfg_burst m (m_now m)) as C. unfold cfg in C. injection C as C1 C2. repeat split; assumption. }
+  destruct F as (F1 & F2 & F3 & F4 & F5 & F6).
+  assert (Hsp : m_client m1 = true \/ m_space m1 <> 2).
+  { right. rewrite F5. intros E. rewrite E in Es. discriminate. }
+  destruct (discard_exact_space m1 W1 Hsp) as [D0 D1].
+  assert (Hsg : single m1 = true).
+  { unfold single. rewrite F5, Es. apply orb_true_r. }
+  pose proof (w_single m1 W1 Hsg) as Hp0.
+  assert (G : ccs (pa (discard m1)) = cc_add (ccs (pa m)) 0 0 0 (fold_right (fun p acc => p_bytes p + acc) 0 (sentp m))
+              /\ ccs (pb (discard m1)) = ccs (pb m) /\ backoff (discard m1) = backoff m).
+  { unfold discard. rewrite ccs_pa_cc_path, ccs_pb_cc_path. change (0 =? 0) with true. cbn match.
+    cbn [cc_path set_path backoff]. rewrite F1, F2, F3, F4. repeat split; reflexivity. }
+  destruct G as (G1 & G2 & G3).
+  eexists. jopen.
+  change (6 =? 1)%Z with false. change ((6 =? 3) || (6 =? 4))%Z with false. change (6 =? 5)%Z with false.
+  change (6 =? 6)%Z with true. cbn [negb andb]. cbn match.
+  rewrite D0, D1. rewrite R1, <- F1, filter_path0_nil by assumption.
+  change (sum_bytes_on [] 0) with 0. change (sum_bytes_on [] 1) with 0. change (Nz 0) with 0%Z.
+  rewrite G1, G2, G3, F1, R5, R6, R7, !cc_eqb_refl, N.eqb_refl, !Z.eqb_refl. reflexivity.
+Qed.
+
+(* the same code in the ApplicationData space is ignored *)
+Lemma jstep_noop6 : forall m j a b d e f g t, winv m -> rel m j -> (m_space m =? 2) = true ->
+  exists j', jstep_m true true (m_client m) j 6 a b d e f g (mobs m 0 [] [] ++ t) = Some (j', t, false) /\ rel m j'.
+Proof.
+  intros m j a b d e f g t W (R1 & R2 & R3 & R4 & R5 & R6 & R7 & R8) Es.
+  eexists. split.
+  - jopen. change (6 =? 1)%Z with false. change ((6 =? 3) || (6 =? 4))%Z with false. change (6 =? 5)%Z with false.
+    change (6 =? 6)%Z with true. change (6 =? 7)%Z with false. change (6 =? 2)%Z with false. cbn [negb andb]. cbn match.
+    rewrite R1, R5, R6, R7, !cc_eqb_refl, N.eqb_refl, Z.eqb_refl. rewrite (bif_ok_winv m W). reflexivity.
+  - unfold rel. cbn [j_un j_lg j_now j_last j_cc0 j_cc1 j_bo].
+    repeat split; try assumption; try reflexivity; try (symmetry; assumption); try congruence.
+Qed.
+
+Lemma judge_run_ops : forall l m j, winv m -> now_pos m -> rel m j ->
+  judge_ops true (m_space m =? 2) (m_client m) j l (run_ops m l) = true.
+Proof.
+  induction l as [l Hl | c a b d e f g x t IH] using RttProofs.list_ind8; intros m j W Hn R.
   - destruct l as [|c [|a [|b [|d [|e [|f [|g [|x t]]]]]]]]; try reflexivity. cbn [length] in Hl. lia.
-  - cbn [no_discard_ops] in Hd. apply andb_prop in Hd as [Hc Hd].
-    assert (H6 : (c =? 6)%Z = false) by (destruct (c =? 6)%Z; [discriminate|reflexivity]).
-    cbn [run_ops judge_ops].
-    pose proof (winv_mstep m c a b d e f g W Hn H6) as [W' Hn'].
-    destruct (jstep_ok sp m j c a b d e f g (run_ops (mstep_state m c a b d e f g) t) W Hn R H6) as (j' & HJ & R').
-    unfold mstep_state in *.
-    destruct (mstep m c a b d e f g) as [[[[m' code] lost] hulls] stop] eqn:EM.
-    destruct HJ as [HJ ->]. rewrite HJ. apply IH; assumption.
+  - cbn [run_ops judge_ops].
+    destruct (c =? 6)%Z eqn:H6.
+    + apply Z.eqb_eq in H6. subst c. rewrite mstep6. destruct (m_space m =? 2) eqn:Es.
+      * destruct (jstep_noop6 m j a b d e f g (run_ops m t) W R Es) as (j' & HJ & R').
+        rewrite HJ. specialize (IH m j' W Hn R'). rewrite Es in IH. exact IH.
+      * destruct (jstep_discard m j a b d e f g [] W R Es) as (j' & HJ).
+        rewrite HJ. reflexivity.
+    + pose proof (winv_mstep m c a b d e f g W Hn H6) as [W' Hn'].
+      destruct (jstep_ok m j c a b d e f g (run_ops (mstep_state m c a b d e f g) t) W Hn R H6) as (j' & HJ & R').
+      pose proof (cfg_mstep m c a b d e f g) as HC. unfold cfg in HC. injection HC as HC1 HC2.
+      unfold mstep_state in *.
+      destruct (mstep m c a b d e f g) as [[[[m' code] lost] hulls] stop] eqn:EM.
+      destruct HJ as [HJ ->]. rewrite HJ. rewrite <- HC1, <- HC2. apply IH; assumption.
 Qed.
 
-(* the judgement with one granularity of slack accepts every run of the model without a space discard *)
-Theorem judge_tol_run : forall case, no_discard_case case = true -> judge_tol case (run case) = true.
+(* the judgement with one granularity of slack accepts every run of the model: any space, client or
+   server, with space discards and Retry *)
+Theorem judge_tol_run : forall case, judge_tol case (run case) = true.
 Proof.
-  intros case H. unfold judge_tol, judge_g, run.
+  intros case. unfold judge_tol, judge_g, run.
   destruct case as [|sp [|cf [|mad [|st ops]]]]; try reflexivity.
-  cbn [no_discard_case] in H. apply judge_run_ops; [apply winv_init| |  |assumption].
-  - unfold now_pos, minit. cbn [m_now]. lia.
-  - unfold rel, minit, jinit. cbn. repeat split; reflexivity || lia.
+  set (m0 := minit (zN sp) (N.odd (zN cf)) (N.odd (zN cf / 2)) (zN mad) (zN st)).
+  assert (Ea : negb ((zN sp =? 0) || (zN sp =? 1)) = (m_space m0 =? 2)).
+  { subst m0. cbn [minit m_space]. destruct (zN sp =? 0); [reflexivity|]. destruct (zN sp =? 1); reflexivity. }
+  rewrite Ea. change (N.odd (zN cf / 2)) with (m_client m0).
+  apply judge_run_ops; [apply winv_init| |].
+  - unfold now_pos, m0, minit. cbn [m_now]. lia.
+  - unfold rel, m0, minit, jinit. cbn. repeat split; reflexivity || lia.
 Qed.
 
 (* the judgement without the slack rejects the model's own run (and the implementation's) on the
